@@ -261,8 +261,9 @@ fn c11(ck: &mut Check) {
     use crate::xstate::bfs;
     let mut states = 0u64;
     let mut transitions = 0u64;
-    for typed in [false, true] {
-        let m = QModel::new(ck.tier, typed);
+    for which in 0..3 {
+        let typed = which > 0;
+        let m = if which == 2 { QModel::new_typed_others() } else { QModel::new(ck.tier, typed) };
         let t0 = Instant::now();
         let mut res = bfs(&m, None, 3_000_000);
         let mut pa = Acc::new();
@@ -400,6 +401,7 @@ pub fn replay_case(prop: &'static str, case: &Value) -> Option<Vec<Violation>> {
         },
         "quals-bfs" => return crate::xstate::replay(&crate::m_quals::QModel::new(Tier::Thorough, false), case).or_else(|| crate::xstate::replay(&crate::m_quals::QModel::new(Tier::Quick, false), case)),
         "quals-typed-bfs" => return crate::xstate::replay(&crate::m_quals::QModel::new(Tier::Quick, true), case),
+        "quals-typed-others-bfs" => return crate::xstate::replay(&crate::m_quals::QModel::new_typed_others(), case),
         #[cfg(purl_verif)]
         "hashorder" => return crate::hashorder::replay(case),
         "spell" => return crate::engine_b::replay(prop, monitors_for(prop), case),
